@@ -293,7 +293,21 @@ def gen_vars(e):
 
 C07_TAGS = ["or", "or>or", "pat", "none", "rep", "join", "const", "expr0", "expr1", "wild", "neg", "cond", "multi-head", "fact",
             "or>rep", "or>pat", "or>expr1", "or>wild", "or>neg", "or>const", "or>or>rep", "or>or>pat", "or>or>expr1", "pat+rep", "pat+expr", "wild+expr", "neg+wild",
-            "or>cond", "multi-head+or", "multi-head-fact"]
+            "or>cond", "multi-head+or", "multi-head-fact", "expr1x2"]
+
+
+def expr1_clauses(items):
+    """number of clauses of one conjunction that have an expression argument mentioning a variable bound earlier IN THE SAME clause
+    (each gets a replacement variable from `rule_desugar_repeated_vars`; two of them in one rule must get different ones)"""
+    n = 0
+    for it in items:
+        if it[0] != "cl": continue
+        seen, hit = set(), False
+        for a in it[2]:
+            if a[0] == "v": seen.add(a[1])
+            elif a[0] == "e" and (gen_vars(a[1]) & seen): hit = True
+        n += hit
+    return n
 
 
 def gen_c07_rule(rng, p, edb, idb, heads, want, low):
@@ -301,8 +315,33 @@ def gen_c07_rule(rng, p, edb, idb, heads, want, low):
     g.neg_rels = list(edb) + ([idb[0]] if not low else [])
     if low: g.body_rels = list(edb)
     sc = Scope()
-    body = g.gen_seq(sc, "", 0, rng.range(1, 3), want=want)
+    if "expr1x2" in want:
+        # two clauses of one conjunction, each with an expression argument over a variable the clause itself binds: `r(a, a + 1), q(b, b + 2)`
+        want = [w for w in want if w != "expr1x2"]
+        cand = [r for r in g.rels_for(()) if S.rel_types(p, r).count("int") >= 2 and not p["rels"][r].get("lat")]
+        if not cand: return None, None
+        pre = []
+        for k in (1, 2):
+            r = rng.choice(cand)
+            tys = S.rel_types(p, r)
+            ints = [j for j, t in enumerate(tys) if t == "int"]
+            a = g.fresh()
+            args = []
+            for j, t in enumerate(tys):
+                if j == ints[0]: args.append(("v", a))
+                elif j == ints[1]: args.append(("e", ("add", ("var", a), k)))
+                elif t == "int" and rng.chance(1, 2):
+                    v = g.fresh(); args.append(("v", v)); sc.bound[v] = "int"
+                else: args.append(("_",))
+            sc.bound[a] = "int"
+            pre.append(("cl", r, args, []))
+        g.tag("expr1", "")
+        rest = g.gen_seq(sc, "", 0, rng.range(0, 1), want=want)
+        body = None if rest is None else pre + rest
+    else:
+        body = g.gen_seq(sc, "", 0, rng.range(1, 3), want=want)
     if body is None or not sc.bound: return None, None
+    if expr1_clauses(body) >= 2: g.tags.add("expr1x2")
     hs = [g.gen_head(sc, h) for h in heads]
     if len(hs) > 1:
         g.tags.add("multi-head")
@@ -313,7 +352,7 @@ def gen_c07_rule(rng, p, edb, idb, heads, want, low):
 def gen_c07_program(rng):
     p, edb, idb = gen_schema(rng)
     tags = set()
-    wants = rng.shuffle(["or", "pat", "rep", "expr1", "wild", "neg", "const", "cond", "none", "expr0"])
+    wants = rng.shuffle(["or", "pat", "rep", "expr1", "wild", "neg", "const", "cond", "none", "expr0", "expr1x2"])
     plan = [[idb[0]]] + [[h] for h in idb[1:]] + [[rng.choice(idb[1:]), rng.choice(idb)]] + [[rng.choice(idb[1:])] for _ in range(rng.range(1, 3))]
     for heads in plan:
         heads = list(dict.fromkeys(heads))
@@ -348,6 +387,38 @@ def gen_input(rng, p, rels=None, max_rows=7):
             if d.get("lat") and any(x[:-1] == t[:-1] for x in rows): continue
             rows.append(t)
         inp[r] = list(dict.fromkeys(rows))
+    # plant rows that satisfy the clauses whose expression arguments mention a variable bound by the clause itself (`r(a, a + 1)`): random rows
+    # rarely do, and a rule with two such clauses needs a match of EACH (with different values) to tell a correct desugaring from a wrong one
+    def walk(items):
+        for it in items:
+            if it[0] == "cl": yield it
+            elif it[0] == "or":
+                for alt in it[1]: yield from walk(alt)
+    for ru in p["rules"]:
+        for cl in walk(ru["body"]):
+            r = cl[1]
+            if p["rels"][r].get("lat") or (rels is not None and r not in rels): continue
+            tys = S.rel_types(p, r)
+            seen = {}
+            plant = False
+            for j, a in enumerate(cl[2]):
+                if a[0] == "v": seen.setdefault(a[1], j)
+                elif a[0] == "e" and isinstance(a[1], tuple) and (gen_vars(a[1]) & set(seen)): plant = True
+            if not plant: continue
+            for base in (rng.range(0, 2), rng.range(2, 4)):
+                env = {}
+                row = []
+                ok = True
+                for j, a in enumerate(cl[2]):
+                    if tys[j] != "int": row.append("none"); continue
+                    if a[0] == "v":
+                        env.setdefault(a[1], base + len(env)); row.append(env[a[1]])
+                    elif a[0] == "e":
+                        try: row.append(eng.ev(a[1], env))
+                        except Exception: ok = False; break
+                    else: row.append(base)
+                if ok and all(isinstance(x, int) or x == "none" for x in row) and tuple(row) not in inp.get(r, []):
+                    inp.setdefault(r, []).append(tuple(row))
     return inp
 
 
@@ -390,7 +461,7 @@ def select(rng, genf, required, per_tag, max_programs, tries=4000):
 # ------------------------------------------------------------------ C08 programs (macros)
 
 C08_TAGS = ["or-then-again", "twice", "clash-before", "clash-after", "site-or", "body-or", "nested-body", "nested-head", "head-macro", "expr-param", "ident-in", "ident-out",
-            "local-pat", "local-cond", "local-neg", "twice-nested", "nested-passes-local", "expr-arg-mentions-clash", "macro-in-fact-head"]
+            "local-pat", "local-cond", "local-neg", "twice-nested", "nested-passes-local", "expr-arg-mentions-clash", "macro-in-fact-head", "chain-twice", "chain-clash"]
 
 
 def gen_macro_body(rng, p, edb, idb, params, nested=None, want=()):
@@ -471,6 +542,23 @@ def gen_c08_program(rng):
             if body is not None: break
         if body is None: return p, set()
         macros.append({"params": ["expr" if m == "expr" else "ident" for m in ms], "body": detach_conds(body)}); modes.append(ms); tags |= t
+    # a "chain" macro whose only macro-local identifier is bound exclusively through the arguments of NESTED invocations:
+    #   macro hop($a, $b) { r($a, $b) }   macro chain($a, $b) { hop!($a, mid), hop!(mid, $b) }
+    # (renaming the locals of `chain` must also see the identifiers it hands to nested invocations)
+    chain = None
+    two_int = [r for r in list(edb) + list(idb[1:]) if S.rel_types(p, r).count("int") >= 2 and not p["rels"][r].get("lat")]
+    if two_int and rng.chance(2, 3):
+        r = rng.choice(two_int)
+        tys = S.rel_types(p, r)
+        ints = [j for j, t in enumerate(tys) if t == "int"][:2]
+        hop_args = [("v", ("p", ints.index(j))) if j in ints else ("_",) for j in range(len(tys))]
+        macros.append({"params": ["ident", "ident"], "body": [("cl", r, hop_args, [])]}); modes.append(["out", "out"])
+        hop = len(macros) - 1
+        mid = 50 + rng.below(3)          # spelled like a call-site variable of the rules below
+        macros.append({"params": ["ident", "ident"], "body": [("mac", hop, [("id", ("p", 0)), ("id", mid)]), ("mac", hop, [("id", mid), ("id", ("p", 1))])]})
+        modes.append(["out", "out"])
+        chain = (len(macros) - 1, mid)
+        tags.add("nested-body"); tags.add("nested-passes-local")
     # head macros: parameters are expressions / identifiers that are read only
     nh = rng.range(1, 2)
     hmacs = []
@@ -582,6 +670,22 @@ def gen_c08_program(rng):
         else:
             heads.append(g.gen_head(sc, hsel))
         p["rules"].append({"heads": heads, "body": body + g.guards})
+    if chain is not None:
+        ci, mid = chain
+        two = [h for h in idb[1:] if S.rel_types(p, h) == ["int", "int"]]
+        one = [h for h in idb[1:] if S.rel_types(p, h)[0] == "int"]
+        def head(h, a, b):
+            tys = S.rel_types(p, h)
+            vals = [("var", a), ("var", b)]
+            return (h, [(vals[k] if k < 2 else 0) if t == "int" else "none" for k, t in enumerate(tys)])
+        hs = two or one
+        if hs:
+            # the same macro twice in one rule: the two expansions must not share `mid`
+            p["rules"].append({"heads": [head(rng.choice(hs), 60, 62)], "body": [("mac", ci, [("id", 60), ("id", 61)]), ("mac", ci, [("id", 61), ("id", 62)])]})
+            tags.add("chain-twice")
+            # a call-site variable spelled exactly like the macro-local `mid`
+            p["rules"].append({"heads": [head(rng.choice(hs), mid, 63)], "body": [("mac", ci, [("id", mid), ("id", 63)])]})
+            tags.add("chain-clash")
     # a rule for the low relation and a head macro used in a fact
     g = RuleGen(rng.fork("low"), p, edb, idb); g.neg_rels = list(edb); g.body_rels = list(edb)
     sc = Scope(); it = g.gen_clause(sc, "")
